@@ -23,6 +23,10 @@ type DOp struct {
 	To   bool   `json:"to,omitempty"`
 	From bool   `json:"from,omitempty"`
 	N    int    `json:"n,omitempty"`
+	// exec only: Sid is the step ID of the work-start ("" = the plugin's step "s", "-" = an EMPTY step
+	// ID, anything else is sent as it is); Bad: the input is one the step's schema rejects
+	Sid string `json:"sid,omitempty"`
+	Bad bool   `json:"bad,omitempty"`
 }
 
 // SOp is one operation of the scripted server.
@@ -30,6 +34,8 @@ type DOp struct {
 //	expect N     wait until N client messages have been consumed (cumulative)
 //	expectws R   wait until the work-start of run R has been consumed
 //	expectdone   wait until client-done has been consumed
+//	expectdonelong  the same, but like the real server: silent, output open, for as long as it takes
+//	             (bounded by 9 s, well beyond the director's timeout for a call)
 //	expectsig N  wait until N signal messages have been consumed
 //	hello        send the hello message (version / schema of the session)
 //	done R X     work-done for run R with output "o<X>"
